@@ -157,6 +157,8 @@ var (
 	verifWriteFault bool                  // each write may fail nondeterministically
 	verifIncoming   []packager.Package    // packages "received" (image of json.Unmarshal on arbitrary text)
 	verifReadErr    error
+	verifReadIs1006 bool  // the read error is a websocket close error 1006 (abnormal closure)
+	verifCloseErr   error // what closing a connection reports (nil: success)
 	verifClosed     []*websocket.Conn
 	verifInMutex    bool
 )
@@ -167,6 +169,8 @@ func verifWSReset() {
 	verifWriteFault = false
 	verifIncoming = nil
 	verifReadErr = errors.New("verif: connection closed")
+	verifReadIs1006 = false
+	verifCloseErr = nil
 	verifClosed = nil
 }
 
@@ -208,11 +212,16 @@ func verifStubReadMessage(c *websocket.Conn) (int, []byte, error) {
 //verif:stub (*github.com/gorilla/websocket.Conn).Close
 func verifStubConnClose(c *websocket.Conn) error {
 	verifClosed = append(verifClosed, c)
-	return nil
+	return verifCloseErr
 }
 
 //verif:stub github.com/gorilla/websocket.IsCloseError
-func verifStubIsCloseError(err error, codes ...int) bool { return false }
+func verifStubIsCloseError(err error, codes ...int) bool {
+	if err == verifReadErr {
+		return verifReadIs1006
+	}
+	return false
+}
 
 // packager.CreatePackage = json.Unmarshal of arbitrary text into a Package: the harness
 // supplies the resulting (arbitrary, well-typed) Package.
